@@ -268,6 +268,11 @@ func VerifC20_ShutdownFlushTakesLong() {
 		inner.Write(msg, duplicates)
 	})
 	k := 3 + rt.Choice("more", 2)
+	if !rt.Symbolic() {
+		// (natively the order in which a select takes two ready cases is
+		// random: more lines make a flush that ends early all but certain)
+		k += 12
+	}
 	for i := 0; i < k; i++ {
 		Info("line" + string(rune('a'+i)))
 	}
